@@ -783,7 +783,10 @@ def oracle(case):
 
 def desc_strategy(view):
     # inf only where the statement's "always strict JSON" bites; the other views say nothing about infinities
-    return LB.las_desc(inf=(view == "json"), p_text=4, p_empty=1, drops=True, extra_kinds=(("o", "i") if view == "json" else ()))
+    # post-build deletions (stale suffixes such as GR:2, GR:3) only where the view does not rename curves: after
+    # set_data_from_df() lasio re-assigns duplicate suffixes, so "the same curve names" is only meaningful without them
+    return LB.las_desc(inf=(view == "json"), p_text=4, p_empty=1, drops=(view in ("json", "csv")),
+                       extra_kinds=(("o", "i") if view == "json" else ()))
 
 
 @st.composite
